@@ -189,6 +189,28 @@ def run_C04(run):
     run.hist("C04ops", 3 if q else 4, nslots=2, maxiters=4, docs_per=2 if q else 4, stage="hist-inplace")
 
 
+SHARE_CALLS = {"Select", "Evaluate", "StringJoin", "Concat", "Matches", "Compile"}
+
+
+def run_C05(run):
+    q = run.tier == "quick"
+    # (1) the ownership protocol: all interleavings of 3 goroutines at access granularity (intended design)
+    run.tlc("XShare", {"Procs": {1, 2, 3}, "Calls": SHARE_CALLS, "MaxCalls": 1 if q else 2, "EvaluateOnShared": False,
+                       "AssignCapturedVar": False}, invariants=("NoConflict", "LockDiscipline", "MutualExclusion"),
+            name="share-intended", out=False)
+    # (1b) model sensitivity: the two deviations the pinned tree had ARE found by TLC (a lead, never a verdict)
+    for flag in ("EvaluateOnShared", "AssignCapturedVar"):
+        c = {"Procs": {1, 2}, "Calls": SHARE_CALLS, "MaxCalls": 1, "EvaluateOnShared": False, "AssignCapturedVar": False}
+        c[flag] = True
+        r = run.tlc("XShare", c, invariants=("NoConflict",), name="share-asbuilt-" + flag, out=False, allow_violation=True)
+        if "Invariant NoConflict is violated" not in r["log"]:
+            raise ToolingError("XShare does not detect the %s deviation: the model is vacuous" % flag)
+    # (2) cooperative replay of every API-level interleaving of up to 3 clients on ONE shared Expr
+    run.hist("C04", 4 if q else 5, nslots=2, maxiters=3, docs_per=1, stage="hist-interleavings")
+    # (3) real goroutines under the race detector, results compared with the sequential ones
+    run.race(6 if q else 60, goroutines=8)
+
+
 def run_C12(run):
     q = run.tier == "quick"
     # flat paths: exact document order; every node-set expression: protocol
@@ -249,6 +271,7 @@ PROPS = {
     "C02": {"run": run_C02},
     "C03": {"run": run_C03},
     "C04": {"run": run_C04},
+    "C05": {"run": run_C05},
     "C12": {"run": run_C12},
     "C11": {"run": run_C11},
     "C13": {"run": run_C13},
